@@ -794,3 +794,37 @@ func VerifC20Recompile() {
 		vassert(vMapEq(o1, o2), "both compilations of the workflow behave alike")
 	}
 }
+
+// A graph nested in itself - directly, or through a second graph or chain - has no finite expansion: Compile rejects
+// it with an error (it must not recurse until the stack overflows, which no caller can recover from).
+func VerifC20SelfNested() {
+	ctx := context.Background()
+	vcfg("fifo", 1)
+	vcfg("depthviolation", 300) // a Compile still nesting at this depth is unbounded recursion
+	var err error
+	switch vchoose("shape", 3) {
+	case 0:
+		g := NewGraph[map[string]any, map[string]any]()
+		_ = g.AddGraphNode("self", g)
+		_ = g.AddEdge(START, "self")
+		_ = g.AddEdge("self", END)
+		_, err = g.Compile(ctx)
+	case 1:
+		a := NewGraph[map[string]any, map[string]any]()
+		b := NewGraph[map[string]any, map[string]any]()
+		_ = a.AddGraphNode("b", b)
+		_ = a.AddEdge(START, "b")
+		_ = a.AddEdge("b", END)
+		_ = b.AddGraphNode("a", a)
+		_ = b.AddEdge(START, "a")
+		_ = b.AddEdge("a", END)
+		_, err = a.Compile(ctx)
+	case 2:
+		c1 := NewChain[map[string]any, map[string]any]()
+		c2 := NewChain[map[string]any, map[string]any]()
+		c1.AppendGraph(c2)
+		c2.AppendGraph(c1)
+		_, err = c1.Compile(ctx)
+	}
+	vassert(err != nil, "a graph nested in itself is rejected by Compile with an error")
+}
